@@ -43,6 +43,15 @@ CLAIMED = {
         "technique": "machine-checked proof in Rocq (Coq 8.16) of the look-up folds + differential correspondence and metamorphic conversion oracle",
         "design": "DESIGN.md §7 C15",
     },
+    "C17": {
+        "text": "Rocq theorems over the std::path/PathBufExt model: C17_abs (for every absolute base directory and every path not starting with a specifier, absolute_from "
+                "returns the canonical spelling of the position reached by walking the segments from the root -- '.' stays, '..' goes up but never above '/', repeated and trailing "
+                "separators vanish -- and consults no current directory), C17_normal (no '.', '..' or empty segment remains), C17_result_absolute, C17_specifier; unbounded. "
+                "Call sites (Yaml, ConfigMap, EnvironmentFile, Volume/Mount sources, SetWorkingDirectory) are decided by a direct oracle on converter output run from two working directories, not yet by theorems.",
+        "note": "Trusted: Coq kernel; Spec/CleanRef.v (walk); the std::path semantics written in Model/Path.v (validated by differential runs); extraction; driver.",
+        "technique": "machine-checked proof in Rocq (Coq 8.16): push/pop normaliser = lexical walk + differential correspondence check",
+        "design": "DESIGN.md §7 C17",
+    },
     "C20": {
         "text": "Rocq theorem C20_exact: for every code-point string s, the model of the hand-written recogniser accepts s iff s is in the language "
                 "digits+ ('-' digits+)? ('/tcp'|'/udp')? stated declaratively (PortRe); full for the recogniser. Tied to /repo by differential runs "
